@@ -564,6 +564,12 @@ class Producers:
                 return frozenset(["empty"])
             if ft in ("String::from", "Some", "Ok"):
                 return self.expr(e["args"][0], f, env, stack, depth + 1) if e["args"] else NONE
+            # a free function of the crate (`identifiers::event_name_words(name)`): its own return value on these arguments
+            nm_ = re.sub(r"\s+", "", ft).split("::")[-1]
+            free = [x for x in self.S.fns if x.name == nm_ and x.body is not None and not x.owner and len([p_ for p_ in x.sig.get("params", []) if not p_.get("self")]) == len(e["args"])]
+            if len(free) == 1 and re.fullmatch(r"[a-z_][a-z0-9_]*", nm_) and depth < 12:
+                args = [self.expr(a, f, env, stack, depth + 1) for a in e["args"]]
+                return frozenset(self.call_fn(free[0], args, stack))
             return UNKNOWN
         if k == "mcall":
             m = e["method"]
@@ -582,6 +588,16 @@ class Producers:
                 return conv(self.expr(e["args"][0], f, env, stack, depth + 1), self.rule_text(e["recv"], f, env))
             if m == "apply_naming_convention" and len(e["args"]) == 2:
                 return conv(self.expr(e["args"][0], f, env, stack, depth + 1), self.rule_text(e["args"][1], f, env))
+            if m == "replace" and len(e["args"]) == 2 and e["args"][0].get("k") == "closure" and lit_str(e["args"][1]) is not None:
+                # `s.replace(|c: char| !c.is_alphanumeric(), "_")`: the alphanumerics of s plus the literal (the same map as char_map)
+                cl_ = e["args"][0]
+                pn_ = pat_bindings(cl_["params"][0])[0] if cl_.get("params") else None
+                b_ = cl_["body"]
+                if b_.get("k") == "block" and len(b_["stmts"]) == 1 and b_["stmts"][0].get("k") == "expr":
+                    b_ = b_["stmts"][0]["e"]
+                if pn_ and re.fullmatch(r"!\s*%s\.is_(ascii_)?alphanumeric\(\)" % re.escape(pn_), expr_text(b_).strip()):
+                    h_ = set(self.expr(e["recv"], f, env, stack, depth + 1)) & {"leaddigit", "empty"}
+                    return frozenset(h_ | (set(lit_hazards(lit_str(e["args"][1]))) - {"empty", "reserved", "leaddigit"}))
             if m == "collect" and e["recv"].get("k") == "mcall" and e["recv"]["method"] == "map":
                 cm = self.char_map(e["recv"], f, env, stack, depth)
                 if cm != UNKNOWN:
